@@ -72,17 +72,28 @@ pub(crate) mod kani_verif {
     }
 
     // ------------------------------------------------------------------ specification of the successor key blob
-    /// heights of the parameter bytes (RFC/hash-sigs nibble packing), None if the blob's parameter list is invalid
+    /// heights of the parameter bytes (hash-sigs nibble packing): None if the list is empty, holds an invalid code, has more
+    /// levels than this build supports, or a level beyond the build's height / Winternitz limits (C11, C14)
     fn spec_blob_heights(pb: &[u8; 8]) -> Option<([u32; 8], usize)> {
         let mut hs = [0u32; 8];
+        let mut j = MAX_ALLOWED_HSS_LEVELS;
+        while j < 8 {
+            if pb[j] != 0xff {
+                return None;
+            }
+            j += 1;
+        }
         let mut n = 0usize;
-        while n < 8 {
+        while n < MAX_ALLOWED_HSS_LEVELS {
             if pb[n] == 0xff {
                 break;
             }
             let h = spec_height_of_lms_code(pb[n] >> 4);
             let w = spec_w_of_lmots_code(pb[n] & 0x0f);
             if h.is_none() || w.is_none() {
+                return None;
+            }
+            if h.unwrap() as usize > crate::constants::TREE_HEIGHTS[n] || (w.unwrap() as usize) < crate::constants::WINTERNITZ_PARAMETERS[n] {
                 return None;
             }
             hs[n] = h.unwrap();
@@ -124,26 +135,47 @@ pub(crate) mod kani_verif {
         CB_CALLS_AT_SIGN.store(0, Ordering::Relaxed);
     }
 
-    /// Partition of all 2^64 parameter-byte strings (complete): for the first position i that is not a valid code,
-    /// either byte i is the end marker (list of i levels, i = 0 is the empty list) or it is an invalid code.
-    /// shape = L (1..=8): valid list of exactly L levels; shape = 10 + i: invalid code at position i; shape = 0: empty list.
+    /// Partition of all 2^64 parameter-byte strings (complete; M = MAX_ALLOWED_HSS_LEVELS of the build):
+    ///   shape L in 1..=M : bytes 0..L valid codes within the build limits, then the end marker (if L < 8); accepted
+    ///   shape 0          : byte 0 is the end marker (empty list: wiped / exhausted key)
+    ///   shape 10 + i     : bytes 0..i valid, byte i neither end marker nor an acceptable code (invalid or beyond limits)
+    ///   shape 20         : a byte at position >= M is not the end marker (more levels than the build supports)
+    /// bytes not mentioned are arbitrary.
     fn any_blob(shape: usize) -> [u8; KEYLEN] {
         let mut blob: [u8; KEYLEN] = kani::any();
-        let valid = if shape <= 8 { shape } else { shape - 10 };
+        let valid = if shape <= 8 { shape } else if shape == 20 { 1 } else { shape - 10 };
         let mut i = 0;
         while i < valid {
-            blob[8 + i] = (any_lms_code(true) << 4) | any_lmots_code();
+            let b = (any_lms_code(true) << 4) | any_lmots_code();
+            kani::assume(spec_height_of_lms_code(b >> 4).unwrap() as usize <= crate::constants::TREE_HEIGHTS[i]);
+            kani::assume(spec_w_of_lmots_code(b & 0x0f).unwrap() as usize >= crate::constants::WINTERNITZ_PARAMETERS[i]);
+            blob[8 + i] = b;
             i += 1;
         }
-        if shape <= 8 {
-            if shape < 8 {
-                blob[8 + shape] = 0xff;
+        if shape <= 8 || shape == 20 {
+            if valid < 8 {
+                blob[8 + valid] = 0xff;
             }
         } else {
             let b: u8 = kani::any();
             kani::assume(b != 0xff);
-            kani::assume(spec_height_of_lms_code(b >> 4).is_none() || spec_w_of_lmots_code(b & 0x0f).is_none());
+            let h = spec_height_of_lms_code(b >> 4);
+            let w = spec_w_of_lmots_code(b & 0x0f);
+            kani::assume(h.is_none() || w.is_none()
+                || h.unwrap() as usize > crate::constants::TREE_HEIGHTS[valid]
+                || (w.unwrap() as usize) < crate::constants::WINTERNITZ_PARAMETERS[valid]);
             blob[8 + valid] = b;
+        }
+        if shape != 20 {
+            let mut j = MAX_ALLOWED_HSS_LEVELS;
+            while j < 8 {
+                blob[8 + j] = 0xff;
+                j += 1;
+            }
+        } else {
+            let j: usize = kani::any();
+            kani::assume(j >= MAX_ALLOWED_HSS_LEVELS && j < 8);
+            kani::assume(blob[8 + j] != 0xff);
         }
         blob
     }
@@ -195,10 +227,16 @@ pub(crate) mod kani_verif {
             assert!(r.is_err() && calls == 0, "malformed key: error, callback not invoked");
             assert!(SIGN_CALLS.load(Ordering::Relaxed) == 0, "malformed key: nothing signed");
         }
-        kani::cover!(r.is_ok(), "success path reachable");
-        kani::cover!(calls == 1 && !cb_ok, "rejecting callback reachable");
-        kani::cover!(calls == 0 && spec_successor(&blob).is_some(), "internal failure path reachable");
-        kani::cover!(spec_successor(&blob).is_none(), "malformed key reachable");
+        if shape >= 1 && shape <= 8 {
+            assert!(spec_successor(&blob).is_some(), "harness sanity: valid shapes are accepted by the specification");
+            kani::cover!(r.is_ok(), "success path reachable");
+            kani::cover!(calls == 1 && !cb_ok, "rejecting callback reachable");
+            kani::cover!(calls == 0, "internal failure path reachable");
+            kani::cover!(calls == 1 && seen[8] == 0xff && seen[16] == 0, "exhaustion (wiped successor) reachable");
+        } else {
+            assert!(spec_successor(&blob).is_none(), "harness sanity: malformed shapes are rejected by the specification");
+            kani::cover!(r.is_err(), "malformed key reachable");
+        }
     }
 
     macro_rules! protocol_harness {
@@ -215,24 +253,29 @@ pub(crate) mod kani_verif {
             }
         };
     }
-    // @h name=c04_core_l1 props=C04,C11,C05,C03 tier=quick kind=proved cfg=w8 timeout=900 funcs=hss_sign_core;ReferenceImplPrivateKey::from_binary_representation;ReferenceImplPrivateKey::increment;CompressedParameterSet::to contract="Ok => callback invoked exactly once, after signing, returned Ok, argument == successor blob (counter+1 / wiped); callback Err => Err; failure => callback not invoked; every key blob with a valid 1-level parameter list"
+    // ---- quick tier: 2-level build (smallest structures); thorough tier: default 8-level capacity (config w8)
+    // @h name=c04_core_l1 props=C04,C11,C05,C03 tier=quick kind=proved cfg=L2w8 timeout=900 funcs=hss_sign_core;ReferenceImplPrivateKey::from_binary_representation;ReferenceImplPrivateKey::to_binary_representation;ReferenceImplPrivateKey::increment;CompressedParameterSet::to contract="Ok => callback invoked exactly once, after signing, returned Ok, argument == successor blob (counter+1 / wiped); callback Err => Err; any failure => callback not invoked; every key blob with a valid 1-level list"
     protocol_harness!(c04_core_l1, false, 1);
-    // @h name=c04_core_l2 props=C04,C11,C05,C03 tier=quick kind=proved cfg=w8 timeout=900 funcs=hss_sign_core contract="same, 2-level lists"
+    // @h name=c04_core_l2 props=C04,C11,C05,C03 tier=quick kind=proved cfg=L2w8 timeout=900 funcs=hss_sign_core contract="same, valid 2-level lists"
     protocol_harness!(c04_core_l2, false, 2);
-    // @h name=c04_core_l3 props=C04,C11,C05,C03 tier=thorough kind=proved cfg=w8 timeout=1800 funcs=hss_sign_core contract="same, 3-level lists"
-    protocol_harness!(c04_core_l3, false, 3);
-    // @h name=c04_core_l8 props=C04,C11,C05,C03 tier=thorough kind=proved cfg=w8 timeout=3000 funcs=hss_sign_core contract="same, 8-level lists"
-    protocol_harness!(c04_core_l8, false, 8);
-    // @h name=c04_core_empty props=C04,C11,C05 tier=quick kind=proved cfg=w8 timeout=900 funcs=hss_sign_core;CompressedParameterSet::to contract="empty parameter list (wiped/exhausted key): Err, callback not invoked"
+    // @h name=c04_core_empty props=C04,C11,C05 tier=quick kind=proved cfg=L2w8 timeout=900 funcs=hss_sign_core;CompressedParameterSet::to contract="empty parameter list (wiped / exhausted key): Err, callback not invoked, nothing signed"
     protocol_harness!(c04_core_empty, false, 0);
-    // @h name=c04_core_bad0 props=C04,C11 tier=quick kind=proved cfg=w8 timeout=900 funcs=hss_sign_core;CompressedParameterSet::to contract="invalid parameter byte at position 0: Err, no panic, callback not invoked"
+    // @h name=c04_core_bad0 props=C04,C11,C14 tier=quick kind=proved cfg=L2w8 timeout=900 funcs=hss_sign_core;CompressedParameterSet::to contract="parameter byte 0 invalid or beyond the build limits: Err, no panic, callback not invoked"
     protocol_harness!(c04_core_bad0, false, 10);
-    // @h name=c04_core_bad1 props=C04,C11 tier=quick kind=proved cfg=w8 timeout=900 funcs=hss_sign_core;CompressedParameterSet::to contract="invalid parameter byte at position 1"
+    // @h name=c04_core_bad1 props=C04,C11,C14 tier=quick kind=proved cfg=L2w8 timeout=900 funcs=hss_sign_core;CompressedParameterSet::to contract="parameter byte 1 invalid or beyond the build limits"
     protocol_harness!(c04_core_bad1, false, 11);
-    // @h name=c04_core_bad4 props=C04,C11 tier=thorough kind=proved cfg=w8 timeout=900 funcs=hss_sign_core;CompressedParameterSet::to contract="invalid parameter byte at position 4"
-    protocol_harness!(c04_core_bad4, false, 14);
-    // @h name=c04_core_bad7 props=C04,C11 tier=thorough kind=proved cfg=w8 timeout=900 funcs=hss_sign_core;CompressedParameterSet::to contract="invalid parameter byte at position 7"
-    protocol_harness!(c04_core_bad7, false, 17);
-    // @h name=c04_hss_sign_l1 props=C04,C09 tier=quick kind=proved cfg=w8 timeout=900 funcs=hss_sign contract="same protocol through the public byte-level entry point hss_sign, 1 level"
+    // @h name=c04_core_toomany props=C04,C11,C14 tier=quick kind=proved cfg=L2w8 timeout=900 funcs=hss_sign_core;ReferenceImplPrivateKey::from_binary_representation contract="more levels than the build supports: Err, callback not invoked"
+    protocol_harness!(c04_core_toomany, false, 20);
+    // @h name=c04_hss_sign_l1 props=C04,C09 tier=quick kind=proved cfg=L2w8 timeout=900 funcs=hss_sign contract="same protocol through the public byte-level entry point hss_sign, 1 level"
     protocol_harness!(c04_hss_sign_l1, true, 1);
+    // @h name=c04_w8_l1 props=C04,C11,C05,C03 tier=thorough kind=proved cfg=w8 timeout=3000 funcs=hss_sign_core contract="default capacity (8 levels): valid 1-level lists"
+    protocol_harness!(c04_w8_l1, false, 1);
+    // @h name=c04_w8_l3 props=C04,C11,C05,C03 tier=thorough kind=proved cfg=w8 timeout=3000 funcs=hss_sign_core contract="default capacity: valid 3-level lists"
+    protocol_harness!(c04_w8_l3, false, 3);
+    // @h name=c04_w8_l8 props=C04,C11,C05,C03 tier=thorough kind=proved cfg=w8 timeout=3000 funcs=hss_sign_core contract="default capacity: valid 8-level lists"
+    protocol_harness!(c04_w8_l8, false, 8);
+    // @h name=c04_w8_bad4 props=C04,C11 tier=thorough kind=proved cfg=w8 timeout=3000 funcs=hss_sign_core contract="default capacity: invalid parameter byte at position 4"
+    protocol_harness!(c04_w8_bad4, false, 14);
+    // @h name=c04_w8_bad7 props=C04,C11 tier=thorough kind=proved cfg=w8 timeout=3000 funcs=hss_sign_core contract="default capacity: invalid parameter byte at position 7"
+    protocol_harness!(c04_w8_bad7, false, 17);
 }
